@@ -107,6 +107,7 @@ static std::string cjson(const CaseDesc& c) { return J().str("statement", std::s
 
 static void run_case(const CaseDesc& c) {
   int d = c.d, n = d * d, dother = (d % 5) + 2; if (dother == d) dother = (d == 2) ? 3 : 2;
+  if ((c.probeset & 1) && d >= 4) dother = d - 2;   // "another size" also means a smaller dimension of the same parity (its storage is interchangeable as far as alignment goes)
   const ref::Basis& B = ref::basis(d);
   // operand value sets: 0,1 = dense probes; 2 = special values (scalar 0, time 0, operand a = 0): shortcuts taken for "nothing to do"
   // must still write every component of the target
@@ -221,6 +222,11 @@ static void run_case(const CaseDesc& c) {
     if (refused != on_user_buffer) violation(std::string(refused ? "own-storage-result-refuses-resize:" : "external-result-silently-detached:") + sig_shape, "{\"case\":" + cjson(c) + "}");
     else if (!refused && !((int)res->Dim() == dother && comps(*res) == comps(other))) violation("follow-up-assignment-wrong-value:" + sig_shape, "{\"case\":" + cjson(c) + "}");
   }
+  // storage released by the statement (the target's old block) may be handed out again: every dimension's next allocations must be
+  // full-sized blocks of their own (all components written; the sanitizer build sees an undersized one)
+  { std::vector<double> keep = comps(*res), ka = comps(*A), kb = comps(*bp);
+    { std::vector<SU_vector> fresh; for (int rep = 0; rep < 2; rep++) for (int dd = 2; dd <= 6; dd++) { fresh.emplace_back((unsigned)dd); for (int k = 0; k < dd * dd; k++) fresh.back()[k] = 1e6 + k; } }
+    if (!(comps(*res) == keep) || !(comps(*A) == ka) || !(comps(*bp) == kb)) violation("later-allocations-overlap-live-vectors:" + sig_shape, "{\"case\":" + cjson(c) + "}"); }
   if (c.kind == K_CONSTRUCT) res->~SU_vector();
 }
 
@@ -237,7 +243,7 @@ int main(int argc, char** argv) {
   bool th = ar.thorough();
   std::vector<int> dims = {2, 3, 4, 5, 6};   // every dimension has its own generated kernels
   std::vector<unsigned> flagsets = th ? std::vector<unsigned>{0, 1, 2, 3, 4, 5, 6, 7} : std::vector<unsigned>{0, 7, 1, 2, 4};
-  if (ar.reduced) { dims = {2, 3}; flagsets = {0, 7}; }
+  if (ar.reduced) { dims = {2, 3, 4, 5}; flagsets = {0, 7}; }
   long long shapes = 0, caseno = 0;
   for (int kind = 0; kind < N_KINDS; kind++) for (int op = 0; op < N_OPS; op++) for (unsigned fl : flagsets) {
     if (kind == K_CONSTRUCT && fl) continue;
